@@ -1124,7 +1124,53 @@ def gen_cases(ctx, runner, n_target):
         g = gen_elements_in_holes(rng)
         if g is not None and constructible(g) and in_bounds(g):
             cases.append(dict(label='elements_in_holes', intended=None, g=g, derive_all=True))
+    # an element INSCRIBED in another one: every vertex on the container's boundary or inside it, touching it only at isolated
+    # points, so that no segment pair is flagged and only the nested-shell / hole tests can reject it; with a touch on all four
+    # sides the two envelopes are EQUAL.  The specification decides the verdict; all derived copies are generated.
+    for _ in range(2 * n_each):
+        for lab, g in gen_inscribed(rng):
+            if constructible(g) and in_bounds(g):
+                cases.append(dict(label=lab, intended=None, g=g, derive_all=True))
     return cases
+
+
+def gen_inscribed(rng):
+    W, H = rng.choice([4, 8, 12]), rng.choice([4, 8, 12])
+    bx, ry, tx, ly = rng.randint(1, W - 1), rng.randint(1, H - 1), rng.randint(1, W - 1), rng.randint(1, H - 1)
+    on = [(bx, 0), (W, ry), (tx, H), (0, ly)]                       # one point on each side, counter-clockwise
+    k = rng.choice([4, 4, 4, 3, 3, 2])
+    keep = sorted(rng.sample(range(4), k))
+    inner = [on[i] for i in keep]
+    if k == 2:                                                       # two touches: add an interior apex on one side of the chord
+        a, b = inner
+        cands = [(x, y) for x in range(1, W) for y in range(1, H) if (b[0] - a[0]) * (y - a[1]) - (b[1] - a[1]) * (x - a[0]) > 0]
+        if not cands: return []
+        inner = [a, b, rng.choice(cands)]
+    elif rng.random() < 0.3:                                         # a corner of the container as an extra touch point
+        corner = {(0, 1): (W, 0), (1, 2): (W, H), (2, 3): (0, H)}
+        for j in range(len(keep) - 1):
+            if (keep[j], keep[j + 1]) in corner and rng.random() < 0.5:
+                inner.insert(j + 1, corner[(keep[j], keep[j + 1])]); break
+    inner = inner + [inner[0]]
+    cont = square(0, 0, W, H)
+    if rng.random() < 0.5:                                           # the touch points are vertices of the container too
+        body = [(0, 0), (bx, 0), (W, 0), (W, ry), (W, H), (tx, H), (0, H), (0, ly)]
+        cont = body + [body[0]]
+    out = []
+    A, B = [cont], [inner]
+    out.append(('inscribed_element_%d' % k, ('MPG', [A, B])))
+    out.append(('inscribed_element_%d' % k, ('MPG', [B, A])))
+    if rng.random() < 0.5:
+        out.append(('inscribed_hole_%d' % k, ('PG', [cont, inner])))
+    if rng.random() < 0.5:                                           # container with a hole that holds the inscribed element (valid when the touches are isolated)
+        big = square(-2, -2, W + 2, H + 2)
+        out.append(('inscribed_in_hole_%d' % k, ('MPG', [[big, cont], [inner]])))
+        out.append(('inscribed_in_hole_%d' % k, ('MPG', [[inner], [big, cont]])))
+    return out
+
+
+GEN_UNITS = ['K_collinearZ', 'K_intersectZ', 'V_isAdjacentInRing', 'V_prevCoordinateInRing', 'V_findInvalidIntersection',
+             'V_checkRingClosed', 'V_checkTooFewPoints', 'V_checkRingPointSize', 'V_isValidLine', 'V_isValidRing']
 
 
 def run(ctx):
@@ -1140,6 +1186,10 @@ def run(ctx):
         'non-finite ordinates are outside the integer model: the expected verdict (invalid, Invalid Coordinate, non-finite location) is stated by the check itself',
         'correspondence is sampled (generator quality bounds it)']
     ok_build = ctx.build_repo('rel')
+    # tie G: the leaf decision functions of src/operation/valid (and the LineIntersector units their prelude reads) are
+    # regenerated from /repo's current source; a unit that no longer translates, or a theorem of C05/PIA.v / C05/IVO.v that
+    # no longer holds of the regenerated text, takes the proof-broken path
+    ctx.translate(GEN_UNITS)
     ok_coq, ax = ctx.coq_build('Properties_C05')
     drv = ctx.ocaml_driver('C05')
     hexe = os.path.join(BUILD, 'bin', 'c05')
